@@ -341,6 +341,10 @@ Inductive op :=
 | OBufGen (b : nat) (cmd : string) (args : list pval) (normalize wavetable clear : bool)
 | OBufNormalize (b : nat) (newmax : pval) (wavetable : bool)
 | OBufCopyData (b dst : nat) (dst_start start n : Z)
+(* streaming: the routine that sends / requests the packets is run to its end (wait >= 0: no sync between packets) *)
+| OBufSendList (b : nat) (vals : list pval) (start_frame : Z)
+| OBufNewSendList (addr : option Z) (vals : list pval) (chans : Z)
+| OBufGetToList (b : nat) (index : Z) (count : option Z)
 (* buses *)
 | OBusNew (audio : bool) (addr : option Z) (chans : Z) (index : option Z)
 | OBusFree (u : nat)
@@ -465,6 +469,33 @@ Definition oflags (n w c : bool) : Z := (if n then 1 else 0) + (if w then 2 else
 (* bus pairs [[index + i, v] ...] flattened, i counted from offset *)
 Fixpoint bus_pairs (idx : Z) (k : Z) (vs : list pval) : list pval :=
   match vs with [] => [] | v :: t => PInt (idx + k) :: flat v ++ bus_pairs idx (k + 1) t end.
+
+(* Buffer._stream_list: '/b_setn' packets of at most 1626 values; every packet announces the number of values it carries,
+   packet k starts at start + k * 1626 *)
+Definition setn_chunk : nat := 1626.
+Fixpoint stream_msgs (fuel : nat) (num : pval) (pos : Z) (l : list pval) : list pmsg :=
+  match fuel with
+  | O => []
+  | S f =>
+    match l with
+    | [] => []
+    | _ => let c := firstn setn_chunk l in
+           (PStr "/b_setn" :: num :: PInt pos :: plen c :: c) :: stream_msgs f num (pos + Z.of_nat setn_chunk) (skipn setn_chunk l)
+    end
+  end.
+(* Buffer.get_to_list: '/b_getn' requests of at most 1633 values from pos up to (not including) stop *)
+Definition getn_chunk : Z := 1633.
+Fixpoint getn_msgs (fuel : nat) (num : pval) (pos stop : Z) : list pmsg :=
+  match fuel with
+  | O => []
+  | S f =>
+    if pos <? stop then
+      let n := Z.min getn_chunk (stop - pos) in
+      [PStr "/b_getn"; num; PInt pos; PInt n] :: getn_msgs f num (pos + n) stop
+    else []
+  end.
+(* bi.ceil(len / channels) for channels >= 1 *)
+Definition ceil_div (a b : Z) : Z := (a + b - 1) / b.
 
 (* bufnum given by the caller, or Server._next_buffer_number(n) (None: the allocator is exhausted) *)
 Definition alloc_bufnum (s : st) (bufnum addr : option Z) (n : Z) : option (Z * st) :=
@@ -876,6 +907,41 @@ Definition obj_step_core (s : st) (o : op) : res :=
       if is_none (b_num x) then fail s EAlreadyFreed else
       ok s [SMsg [PStr "/b_gen"; b_num d; PStr "copy"; PInt ds; b_num x; PInt st_; PInt n]]
     | _, _ => fail s EOther
+    end
+
+  | OBufSendList b vals start =>
+    match get_buf s b with
+    | Some x =>
+      match b_frames x, b_chans x with
+      | PInt fr, PInt ch =>                         (* (self._frames - start_frame) * self._channels needs numbers *)
+        ok s (map SMsg (stream_msgs (List.length vals) (b_num x) (start * ch) vals))
+      | _, _ => fail s EOther
+      end
+    | None => fail s EOther
+    end
+  | OBufNewSendList addr vals chans =>
+    if chans <=? 0 then fail s EOther else
+    match alloc_bufnum s None addr 1 with
+    | None => fail (add_buf s None) EOther
+    | Some (num, s1) =>
+      let fr := ceil_div (Z.of_nat (List.length vals)) chans in
+      ok (add_buf s1 (Some (mkBuf (PInt num) (PInt fr) (PInt chans))))
+         (SMsg [PStr "/b_alloc"; PInt num; PInt fr; PInt chans; PNone]
+          :: map SMsg (stream_msgs (List.length vals) (PInt num) 0 vals))
+    end
+  | OBufGetToList b index count =>
+    match get_buf s b with
+    | Some x =>
+      let total : option Z :=
+          match count with
+          | Some c => Some c
+          | None => match b_frames x, b_chans x with PInt fr, PInt ch => Some (fr * ch) | _, _ => None end
+          end in
+      match total with
+      | Some c => ok s (map SMsg (getn_msgs (Z.to_nat (Z.max 0 c) + 1) (b_num x) index (c + index)))
+      | None => fail s EOther
+      end
+    | None => fail s EOther
     end
 
   (* ---- buses ---- *)
